@@ -498,6 +498,15 @@ def run(ctx):
         # so the aes128 object is dead code in every library build); the static library's copy is not pulled in
         exe, log = core.build_harness("C04", v, sources=[os.path.join(core.ROOT, "props", "C04", "harness.c"),
                                                          os.path.join(core.REPO, "src", "block_cipher.c")], extra="-DENABLE_AES")
+        cases_v = None
+        if exe is None:
+            # fall back to the plain build (the bca op is compiled out there; its cases are skipped for this variant)
+            exe, log2 = core.build_harness("C04", v)
+            if exe is not None:
+                ctx.notes.append("variant %s: harness with -DENABLE_AES block_cipher.c did not build (%s); bca cases skipped" % (v, log[-200:].replace("\n", " ")))
+                cases_v = "nobca"
+            else:
+                log = log2
         if exe is None:
             if v == "asan":
                 core.harness_build_failed(ctx, log)
@@ -513,7 +522,11 @@ def run(ctx):
             t0 = time.time()
             model_out, _ = core.run_lines(model, [c[0] for c in g.cases])
             ctx.notes.append("model: %.1fs, %d cases (evaluated once, compared with every variant)" % (time.time() - t0, len(g.cases)))
-        compare(ctx, g.cases, exe, model_out, v)
+        if cases_v == "nobca":
+            keep = [i for i, c in enumerate(g.cases) if not c[0].startswith("bca ")]
+            compare(ctx, [g.cases[i] for i in keep], exe, [model_out[i] for i in keep], v)
+        else:
+            compare(ctx, g.cases, exe, model_out, v)
     return finish(ctx)
 
 
